@@ -965,6 +965,8 @@ class Channel(ClosingContextManager):
             self.lock.acquire()
             try:
                 m = self._send_eof()
+                # wake senders blocked on the window: they must fail now
+                self.out_buffer_cv.notify_all()
             finally:
                 self.lock.release()
             if m is not None and self.transport is not None:
